@@ -112,6 +112,7 @@ func (c *diskCache) findMissingCasBlobsInternal(ctx context.Context, blobs []*pb
 
 				// Adding to the containsQueue channel may have blocked on a previous iteration,
 				// so check to see if the context has cancelled.
+				verifhook.Step("fm.beforepoll", chunk[i].Hash)
 				select {
 				case <-ctx.Done():
 					if cancelledDueToFailFast {
@@ -209,6 +210,7 @@ func (c *diskCache) findMissingLocalCAS(blobs []*pb.Digest) int {
 func (c *diskCache) containsWorker() {
 	var ok bool
 	for req := range c.containsQueue {
+		verifhook.Step("fm.worker", (*req.digest).Hash)
 		if req.ctx != nil {
 			select {
 			case <-req.ctx.Done():
